@@ -16,7 +16,7 @@ import (
 
 func init() {
 	Register(&Property{ID: "C04", Run: runC04,
-		Rule: "one real engine vs. stub peer; 1-4 rounds of {gap of 1-12 numbers (also on the Logon), then the missing numbers arrive as replays/gap fills in any order within the requested range, interleaved with live application messages, duplicates, and peer silence long enough for a TestRequest to become pending}, chunk size 0 or 1-5, all BeginStrings, both roles; gap fills running past the requested chunk, replays ahead of the requested range; EnableNextExpectedMsgSeqNum against a peer that does not use tag 789. Non-trivial: at least one recovery completed with a kept (early) application message delivered; distinct: canonical trace hash"})
+		Rule: "one real engine vs. stub peer; 1-4 rounds of {gap of 1-12 numbers (also on the Logon), then the missing numbers arrive as replays/gap fills in any order within the requested range, interleaved with live application messages, duplicates, and peer silence long enough for a TestRequest to become pending}, chunk size 0 or 1-5, all BeginStrings, both roles; gap fills running past the requested chunk, replays ahead of the requested range; EnableNextExpectedMsgSeqNum against a peer that does not use tag 789; a counterparty that uses tag 789 after the application sent before the connection was up (with and without persisted messages); the gap revealed by the counterparty's own ResendRequest (known finding, run ends there). Non-trivial: at least one recovery completed with a kept (early) application message delivered; distinct: canonical trace hash"})
 }
 
 type c04Plan struct {
